@@ -143,6 +143,53 @@ Proof.
   intros inst fmt resol isecs p0 p i d [H1 H2]. exact (dadd_dsub inst fmt resol isecs H1 H2 p0 p i d).
 Qed.
 
+(* ---------------- several configurations in one process ---------------- *)
+(* The datetime theorems above are per configuration (one iso8601.init: time
+   zone, cycle point format, expanded year digits, calendar).  When init is
+   called again in the same process the answers must be those of the
+   configuration in force, i.e. a function of (configuration, operands) only:
+   [pure_rop] is exactly dcmp / dstd / dadd / dsub of that configuration, to
+   which c18_iso_* apply.  With the lru_caches of ISO8601Point modelled
+   ([run_scenario]), this holds for every history of configurations and
+   operations provided the cache key determines what the cached functions
+   depend on ... *)
+Theorem c18_reinit_consistent : forall isecs (keyf : config -> Z),
+  (forall c1 c2 o, keyf c1 = keyf c2 -> pure_rop isecs c1 o = pure_rop isecs c2 o) ->
+  forall steps,
+  run_scenario isecs keyf [] steps = map (fun '(c, o) => pure_rop isecs c o) steps.
+Proof.
+  intros isecs keyf Hk steps. apply run_scenario_spec; [exact Hk|]. intros ? ? ? ? ? [].
+Qed.
+
+(* ... which is FALSE of the code as it stands (finding): the key of
+   _iso_point_cmp / _iso_point_add / _iso_point_sub_interval contains the
+   calendar mode only, not the time zone or the cycle point format. *)
+Definition c18_reinit_consistent_as_keyed : Prop :=
+  forall isecs steps,
+  run_scenario isecs cf_cal [] steps = map (fun '(c, o) => pure_rop isecs c o) steps.
+
+(* witness: format CCYYMMDDThhmm; "x" = 20000101T0000 is instant 0 under time
+   zone +01 and instant 60 under Z, "y" = 20000101T0030Z is instant 30 *)
+Definition cfg_plus01 : config :=
+  {| cf_cal := 0; cf_inst := fun s => if String.eqb s "x" then Some 0 else if String.eqb s "y" then Some 30 else None;
+     cf_fmt := show_z; cf_resol := 1 |}.
+Definition cfg_utc : config :=
+  {| cf_cal := 0; cf_inst := fun s => if String.eqb s "x" then Some 60 else if String.eqb s "y" then Some 30 else None;
+     cf_fmt := show_z; cf_resol := 1 |}.
+
+Theorem c18_reinit_consistent_as_keyed_refuted : ~ c18_reinit_consistent_as_keyed.
+Proof.
+  intros H. specialize (H (fun _ => None) [(cfg_plus01, RCmp "x" "y"); (cfg_utc, RCmp "x" "y")]).
+  vm_compute in H. discriminate H.
+Qed.
+
+Example c18_ex_reinit_stale :
+  run_scenario (fun _ => None) cf_cal [] [(cfg_plus01, RCmp "x" "y"); (cfg_utc, RCmp "x" "y")]
+    = [ROCmp Lt; ROCmp Lt] /\
+  map (fun '(c, o) => pure_rop (fun _ => None) c o) [(cfg_plus01, RCmp "x" "y"); (cfg_utc, RCmp "x" "y")]
+    = [ROCmp Lt; ROCmp Gt].
+Proof. split; reflexivity. Qed.
+
 (* ---------------- non-vacuity and observations ---------------- *)
 Example c18_ex_cmp : pcmp "007" "+7" = Ok Eq /\ pcmp "9" "10" = Ok Lt /\ pcmp "-9" "-10" = Ok Gt
   /\ pcmp "abc" "1" = Err ValueError /\ pcmp "abc" "abc" = Ok Eq.
